@@ -211,6 +211,21 @@ def build_cases(ctx, res):
         fam = "gen:%dm:%dc" % (len({r["model"] for r in rows}), min(9, len({r["chain"] for r in rows})))
         cases.append({"source": "gen", "format": "PDB", "rows": rows, "family": fam})
         cases.append({"source": "gen", "format": "mmCIF", "rows": rows, "emit_seed": rng.randrange(1 << 30), "family": fam})
+    # large tables whose models are listed in descending / shuffled order (several hundred rows per model)
+    for i in range(ctx.pick(2, 12)):
+        one = [r for r in g4.random_table(rng, nmodels=1, nchains=rng.choice([2, 3, 4]), max_res=rng.choice([12, 20])) if g4.within_limits(r)]
+        if not one:
+            continue
+        order = rng.choice([[2, 1], [3, 1, 2], [2, 1], [5, 4]])
+        rows, serial = [], 1
+        for m in order:
+            for r in one:
+                rows.append(dict(r, model=m, serial=serial))
+                serial += 1
+        if len(rows) <= 99000:
+            cases.append({"source": "gen", "format": "PDB", "rows": rows, "family": "models-out-of-order:%d-rows" % (100 * (len(rows) // 100))})
+            cases.append({"source": "gen", "format": "mmCIF", "rows": rows, "emit_seed": rng.randrange(1 << 30),
+                          "family": "models-out-of-order:%d-rows" % (100 * (len(rows) // 100))})
     # hand-made minimal shapes
     base = {"record": "ATOM", "serial": 1, "name": "P", "altLoc": "", "resName": "G", "chain": "A", "resSeq": 1, "iCode": "",
             "x": 1000, "y": -2000, "z": 3, "occ": 100, "b": 2050, "element": "P", "charge": "", "model": 1}
@@ -387,8 +402,12 @@ def split_case(res, rows, infmt, outfmt, corr=None, fits=True):
         res.count("splitter:%s->%s%s" % (infmt, real_out, "" if fits else ":needs-fit"))
         written = {}
         listing = sorted(os.listdir(os.path.join(d, "out"))) if os.path.isdir(os.path.join(d, "out")) else []
+        fits_arg = fits
         for m in models:
             want = [r for r in rows if r["model"] == m]
+            # "per-model": a model whose rows fit the PDB widths must come out unchanged even when another model of the
+            # same file does not fit
+            fits = fits_arg if fits_arg in (True, False) else all(g4.within_limits(r) for r in want)
             p = os.path.join(d, "out", "sample_model_%d.%s" % (m, "pdb" if real_out == "PDB" else "cif"))
             if not os.path.exists(p):
                 if fits:
@@ -478,8 +497,84 @@ def run_splitter(ctx, res):
         for outfmt in ("PDB", "mmCIF"):
             res.case(("splitter-fit", k, outfmt), nontrivial=True)
             reqs += split_case(res, rows, "mmCIF", outfmt, corr, fits=False)
+    # multi-model mmCIF files in which only SOME models need fitting (serials that keep counting past 99999 in a later
+    # model, a two-character chain id that occurs in one model only): the models that fit are written unchanged
+    for k in range(ctx.pick(4, 30)):
+        rows = [r for r in g4.random_table(rng, nmodels=rng.randint(2, 3), nchains=rng.randint(1, 3)) if g4.within_limits(r)]
+        models = sorted({r["model"] for r in rows})
+        if len(models) < 2:
+            continue
+        bad = rng.choice(models[1:] if rng.random() < 0.7 else models)
+        how = rng.randrange(3)
+        chains = sorted({r["chain"] for r in rows if r["model"] == bad})
+        victim = rng.choice(chains)
+        mixed = []
+        for r in rows:
+            if r["model"] == bad:
+                if how == 0:
+                    r = dict(r, serial=r["serial"] + 100000)
+                elif how == 1 and r["chain"] == victim:
+                    r = dict(r, chain=victim + "2")
+                elif how == 2:
+                    r = dict(r, resSeq=r["resSeq"] + 10000)
+            mixed.append(r)
+        for outfmt in ("PDB",):
+            res.case(("splitter-some-models-fit", k, outfmt), nontrivial=True)
+            reqs += split_case(res, mixed, "mmCIF", outfmt, corr, fits="per-model")
     judge_split(ctx, res, reqs)
     judge_split_corr(ctx, res, corr)
+
+
+def reparse_case(case):
+    """a file is read, the returned table is edited in place, the same unchanged file is read again: the second reading
+    must be the file's content (the reader is a function of the file, not of earlier calls)"""
+    from rnapolis.parser_v2 import parse_cif_atoms, parse_pdb_atoms
+    rows, fmt = case["rows"], case["format"]
+    out = {"diff": None, "raises": None}
+    with tempfile.TemporaryDirectory() as d:
+        path = os.path.join(d, "table." + ("pdb" if fmt == "PDB" else "cif"))
+        with open(path, "w") as f:
+            f.write(g4.emit_pdb(rows) if fmt == "PDB" else g4.emit_cif(rows))
+        try:
+            with warnings.catch_warnings():
+                warnings.simplefilter("ignore")
+                parse = parse_pdb_atoms if fmt == "PDB" else parse_cif_atoms
+                with open(path) as f:
+                    df1 = parse(f)
+                for col in list(df1.columns)[:]:
+                    if col in ("chainID", "auth_asym_id", "label_asym_id"):
+                        df1[col] = "Z"
+                    elif col in ("tempFactor", "B_iso_or_equiv", "x", "Cartn_x"):
+                        df1[col] = 0.0
+                if len(df1):
+                    df1.drop(df1.index[-1], inplace=True)
+                with open(path) as f:
+                    df2 = parse(f)
+            back = g4.rows_of(df2)
+            want = [dict(r, _raw=(r["x"] / 1000, r["y"] / 1000, r["z"] / 1000, r["occ"] / 100, r["b"] / 100)) for r in rows]
+            out["diff"] = g4.compare_rows(want, back)
+        except Exception as e:  # noqa: BLE001
+            out["raises"] = "%s: %s" % (exc_name(e), str(e)[:160])
+    return out
+
+
+def run_reparse(ctx, res):
+    rng = ctx.rng
+    cases = []
+    for k in range(ctx.pick(12, 120)):
+        rows = [r for r in g4.random_table(rng) if g4.within_limits(r)]
+        if rows:
+            cases.append({"rows": rows, "format": rng.choice(["PDB", "mmCIF"])})
+    for case, o in zip(cases, parallel_map(reparse_case, cases)):
+        res.case(("reparse", case["format"], len(case["rows"])), nontrivial=True)
+        res.count("family:read-edit-read:" + case["format"])
+        inp = {"source": "reparse", "format": case["format"], "rows": case["rows"]}
+        if o["raises"]:
+            res.fail("spec", "C09:reader:second-read-raises", inp, o["raises"])
+        elif o["diff"] is not None:
+            d = o["diff"]
+            res.fail("spec", "C09:reader:second-read-differs:%s" % d[1], inp,
+                     "after the first table was edited in place, reading the unchanged file again gives %s of row %d: %r -> %r" % (d[1], d[0], d[2], d[3]))
 
 
 # ------------------------------------------------------------------------------------------------- entry points
@@ -520,6 +615,8 @@ def run(ctx):
                          "row %d read=%r emitted=%r" % (k, got[k] if k >= 0 else len(got), want[k] if k >= 0 else len(want)))
     run_splitter(ctx, res)
     lap("splitter")
+    run_reparse(ctx, res)
+    lap("read-edit-read")
     for case, o in list(zip(cases, outs))[:3]:
         res.sample({"family": case["family"], "format": o["fmt"], "rows": o["n"], "first": g4.plain(o["rows"][0]) if o["rows"] else None})
     __import__("corr.fn_common", fromlist=["run_fn"]).run_fn(ctx, res, "C09")  # regenerated functions vs the real ones (tools/py2lean.py)
